@@ -80,6 +80,8 @@ class Ctx:
             self.nontrivial.add(case_digest(case))
         if res.get('outcome') is not None:
             self.outcomes.add(res['outcome'])
+        for o in res.get('outcome_list') or ():      # runners that enumerate sub-cases report their outcome digests
+            self.outcomes.add(o)
         for k, v in (res.get('cnt') or {}).items():
             if isinstance(v, (int, float)):
                 self.cnt[k] = self.cnt.get(k, 0) + v
